@@ -33,7 +33,8 @@ REACH = {"quick": {"nomut-checks": 20000, "alias-checks": 20000, "active-probes"
 VMETHODS = ["as_boolean", "as_bytes", "as_date", "as_datetime", "as_float", "as_integer", "as_object", "as_string", "concat", "drop_na",
             "head", "tail", "map", "range", "rank", "replace_na", "sample", "sort", "sort_desc", "unique", "to_strings", "tolist_roundtrip",
             "is_na", "dt.year", "dt.replace", "re.sub", "str.upper", "equal", "rank_ordinal", "getitem_slice_copy",
-            "dt.replace_nothing", "dt.replace_none", "re.sub_nomatch", "replace_na_noop", "head_all", "tail_all"]
+            "dt.replace_nothing", "dt.replace_none", "re.sub_nomatch", "replace_na_noop", "head_all", "tail_all",
+            "construct_from_array", "construct_from_vector", "column_from_array", "frame_from_array", "setitem_array"]
 
 def generate(rng, tier):
     if rng.random() < 0.45:
@@ -92,6 +93,15 @@ def execute(case):
         elif m == "str.upper": out = vec.str.upper()
         elif m == "equal": out = vec.equal(other)
         elif m == "getitem_slice_copy": out = vec.head(len(values))
+        # constructors (and item assignment) given a plain NumPy array or a vector of the final dtype: the new object holds its own data
+        elif m == "construct_from_array": out = di.Vector(np.asarray(vec))
+        elif m == "construct_from_vector": out = di.Vector(vec)
+        elif m == "column_from_array": out = di.DataFrameColumn(np.asarray(vec))
+        elif m == "frame_from_array": out = dict.__getitem__(di.DataFrame(x=np.asarray(vec)), "x")
+        elif m == "setitem_array":
+            fr = di.DataFrame()
+            fr["x"] = np.asarray(vec)
+            out = dict.__getitem__(fr, "x")
         else: out = getattr(vec, m)()
     except Exception as e:
         res.count(f"vector-call-raised:{exc_name(e)}")
